@@ -67,7 +67,7 @@ func (c19) ID() string    { return "C19" }
 func (c19) RunFn() string { return "run_C19" }
 func (c19) Workers() int  { return 8 }
 func (c19) Rule() string {
-	return "random positive (base, factor, cap): mostly in [1, 2^40] ms, one case in twelve anywhere up to MaxInt64 (around MaxInt64/10^6 ms = the longest Duration, around 2^53, powers of two, MaxInt64 = 'uncapped': the delay must then saturate at the longest Duration instead of wrapping - D22, repaired) (small values, powers of two, values at and just below 2^40, zero = default; the defaults are read from the live code through VerifBackoffDefaults, only 'at most three minutes when the cap is left unset' is a literal of the property), with and without jitter (a jittered delay is compared through its range only: 0 <= delay <= the no-jitter delay of that attempt, any resolution), through durationForAttempt(n) (n = 0..70, around the attempt where base*factor^n passes the cap, around the attempts where factor^n and base*factor^n overflow float64, 2^31-1 / 2^31 / 2^31+1, random up to 2^31, 2^53, 2^62, MaxInt64), duration() sequences (up to 70 calls, a few past the float64 overflow point) and duration() sequences after k calls and reset(); cap below / equal to the base and cap = base*factor^k-1, +0, +1 (with attempt 0, factor 1 and the attempts around k) through both APIs; StreamManager scenarios (real Client + StreamManager on the scripted TCP server: session, drop, 5-8 transient negotiation failures, success, second drop, 2-3 failures, success, Stop): the wait after the n-th failed attempt of EVERY outage, measured on the server between the end of that attempt and the next accept, is at most default_base*default_factor^n ms + 500 ms slack (defaults read from the live code), i.e. the sequence restarts after a successful reconnection (Coq: C19_outages_restart / C19_formula_seq_after_reset give the bounds the model returns for the observed attempt counts; C19_jitter_range makes the no-jitter value the bound); a malformed stream outside the property's quantification (negative base / factor / cap, negative attempt numbers: both sides answer a constant, the call only has to leave the harness alive); distinct = distinct (mode, jitter, bit lengths of base/factor/cap, class of n relative to the cap crossing / float overflow); non-trivial = positive parameters within the bound, factor >= 2, base < cap and at least one observed attempt number >= 1"
+	return "random positive (base, factor, cap): mostly in [1, 2^40] ms, one case in twelve anywhere up to MaxInt64 (around MaxInt64/10^6 ms = the longest Duration, around 2^53, powers of two, MaxInt64 = 'uncapped': the delay must then saturate at the longest Duration instead of wrapping - D22, repaired) (small values, powers of two, values at and just below 2^40, zero = default; the defaults are read from the live code through VerifBackoffDefaults, only 'at most three minutes when the cap is left unset' is a literal of the property), with and without jitter (a jittered delay is compared through its range only: 0 <= delay <= the no-jitter delay of that attempt, any resolution), through durationForAttempt(n) (n = 0..70, around the attempt where base*factor^n passes the cap, around the attempts where factor^n and base*factor^n overflow float64, 2^31-1 / 2^31 / 2^31+1, random up to 2^31, 2^53, 2^62, MaxInt64), duration() sequences (up to 70 calls, a few past the float64 overflow point) and duration() sequences after k calls and reset(); cap below / equal to the base and cap = base*factor^k-1, +0, +1 (with attempt 0, factor 1 and the attempts around k) through both APIs; a systematic float64-boundary block (factors 1 2 3 10 65537, more in the thorough tier: base*factor^n placed at -1/+0/+1 of MaxInt64/10^6 ms, 2^52, 2^53 and MaxInt64, cap at the product -1/+0/+1, at the boundary and at MaxInt64, attempts n-1 n n+1 without jitter, n with jitter, and the duration() sequence through the boundary; Coq C19_float_robust states what is assumed of float64 there); StreamManager scenarios (real Client + StreamManager on the scripted TCP server: session, drop, 5-8 transient negotiation failures, success, second drop, 2-3 failures, success, Stop): the wait after the n-th failed attempt of EVERY outage, measured on the server between the end of that attempt and the next accept, is at most default_base*default_factor^n ms + 500 ms slack (defaults read from the live code), i.e. the sequence restarts after a successful reconnection (Coq: C19_stream_manager_waits is the statement for the value the StreamManager declares - jitter on, everything unset; C19_outages_bounded the general one; C19_outages_restart gives the no-jitter values the model returns as bounds for the observed attempt counts); a malformed stream outside the property's quantification (negative base / factor / cap, negative attempt numbers: both sides answer a constant, the call only has to leave the harness alive); distinct = distinct (mode, jitter, bit lengths of base/factor/cap, class of n relative to the cap crossing / float overflow); non-trivial = positive parameters within the bound, factor >= 2, base < cap and at least one observed attempt number >= 1"
 }
 
 // ---- exact arithmetic shared by generator and oracle (math/big; no model) ----
@@ -311,6 +311,64 @@ func (c19) Gen(r *rand.Rand, tier string) []interface{} {
 	// above the bound but below 2^63/10^6: still fine
 	add(c19In{Mode: 1, NoJitter: true, Base: 1, Factor: 2, Cap: 1 << 43, N: 50})
 	add(c19In{Mode: 0, NoJitter: false, Base: 1, Factor: 2, Cap: 1 << 43, N: 50})
+
+	// float64 boundaries (the code computes in float64, the model in Z; Props/C19.v C19_float_robust says
+	// what is assumed of the float path): products base*factor^n placed at and next to max_ms (the longest
+	// Duration: at or below it the delay must EQUAL the product, above it saturate), 2^52 and 2^53 (where
+	// float64 stops holding every integer) and MaxInt64 (float64(Cap) = 2^63), with the cap at the product
+	// -1 / +0 / +1, at the boundary itself and out of reach; attempts n-1, n, n+1; and the sequence through it
+	{
+		maxI := big.NewInt(math.MaxInt64)
+		clamp := func(x *big.Int) int {
+			if x.Sign() <= 0 {
+				return 1
+			}
+			if x.Cmp(maxI) > 0 {
+				return math.MaxInt64
+			}
+			return int(x.Int64())
+		}
+		targets := []*big.Int{big.NewInt(c19MaxMs), new(big.Int).Lsh(big.NewInt(1), 52), new(big.Int).Lsh(big.NewInt(1), 53), maxI}
+		factors := []int{1, 2, 3, 10, 65537}
+		if tier == "thorough" {
+			factors = []int{1, 2, 3, 5, 7, 10, 16, 1000, 65537, 1 << 31, 3037000499}
+		}
+		for _, f := range factors {
+			for ti, T := range targets {
+				top := 0 // the largest k with f^k <= T (factor 1: any attempt number)
+				if f == 1 {
+					top = 3 + ti
+				} else {
+					for pw := big.NewInt(1); ; top++ {
+						pw = new(big.Int).Mul(pw, big.NewInt(int64(f)))
+						if pw.Cmp(T) > 0 {
+							break
+						}
+					}
+				}
+				for _, nn := range []int{top, top / 2} {
+					pw := new(big.Int).Exp(big.NewInt(int64(f)), big.NewInt(int64(nn)), nil)
+					b0 := new(big.Int).Div(T, pw)
+					for db := -1; db <= 1; db++ {
+						base := clamp(new(big.Int).Add(b0, big.NewInt(int64(db))))
+						P := new(big.Int).Mul(big.NewInt(int64(base)), pw)
+						for _, cp := range []int{clamp(new(big.Int).Sub(P, big.NewInt(1))), clamp(P), clamp(new(big.Int).Add(P, big.NewInt(1))), clamp(T), math.MaxInt64} {
+							for dn := -1; dn <= 1; dn++ {
+								if nn+dn >= 0 {
+									add(c19In{Mode: 0, NoJitter: true, Base: base, Factor: f, Cap: cp, N: nn + dn})
+									hist("block:float-boundary")
+								}
+							}
+							add(c19In{Mode: 0, NoJitter: false, Base: base, Factor: f, Cap: cp, N: nn})
+							add(c19In{Mode: 1, NoJitter: true, Base: base, Factor: f, Cap: cp, N: nn + 2})
+							hist("block:float-boundary")
+							hist("block:float-boundary")
+						}
+					}
+				}
+			}
+		}
+	}
 
 	for i := 0; i < n; i++ {
 		in := c19In{NoJitter: r.Intn(10) < 7}
